@@ -11,20 +11,25 @@ func init() {
 			if thorough {
 				o.MaxSwitches = 3
 			}
-			return []harnessCfg{{Dir: "cache", Func: "VerifC10Concurrent", Opts: o, SchedDependent: true}}
+			return []harnessCfg{
+				{Dir: "cache", Func: "VerifC10Concurrent", Opts: o, SchedDependent: true},
+				{Dir: "cache", Func: "VerifC10FullWindow", Opts: o, SchedDependent: true},
+			}
 		},
 		Bounds: func(thorough bool) map[string]string {
 			if thorough {
 				return map[string]string{
-					"goroutines":    "2 goroutines with 2 + 1 operations over Set/Get/Del/Clear/Stats with symbolic keys in {0,1}",
-					"configuration": "MaxCount in {1,2}, LRU on/off, OnDelete nil or checking (LRU only); after the concurrent phase a sequential epilogue (Get of every key, three fresh insertions) checks Count/Size/retrievability",
-					"schedules":     "all interleavings at lock/unlock/atomic/goroutine start and exit with at most 3 preemptions; vector-clock happens-before race detection on every plain access in every interleaving",
+					"goroutines":        "2 goroutines with 2 + 1 operations over Set/Get/Del/Clear/Stats with symbolic keys in {0,1}",
+					"configuration":     "MaxCount in {1,2}, LRU on/off, OnDelete nil or checking (LRU only); after the concurrent phase a sequential epilogue (Get of every key, three fresh insertions) checks Count/Size/retrievability",
+					"full-cache window": "from a full LRU cache (MaxCount 2, keys 0 and 1, either one the oldest, OnDelete installed): one goroutine does one Set on any of three keys (so it evicts and opens the unlocked OnDelete window), the other one Set/Get/Del/Clear on any of three keys; same epilogue; same preemption bound and race detection",
+					"schedules":         "all interleavings at lock/unlock/atomic/goroutine start and exit with at most 3 preemptions; vector-clock happens-before race detection on every plain access in every interleaving",
 				}
 			}
 			return map[string]string{
-				"goroutines":    "2 goroutines with 2 + 1 operations over Set/Get/Del/Clear/Stats with symbolic keys in {0,1}",
-				"configuration": "MaxCount in {1,2}, LRU on/off, OnDelete nil or checking (LRU only); after the concurrent phase a sequential epilogue (Get of every key, three fresh insertions) checks Count/Size/retrievability",
-				"schedules":     "all interleavings at synchronisation points with at most 2 preemptions; happens-before race detection in every interleaving",
+				"goroutines":        "2 goroutines with 2 + 1 operations over Set/Get/Del/Clear/Stats with symbolic keys in {0,1}",
+				"configuration":     "MaxCount in {1,2}, LRU on/off, OnDelete nil or checking (LRU only); after the concurrent phase a sequential epilogue (Get of every key, three fresh insertions) checks Count/Size/retrievability",
+				"full-cache window": "from a full LRU cache (MaxCount 2, keys 0 and 1, either one the oldest, OnDelete installed): one goroutine does one Set on any of three keys (so it evicts and opens the unlocked OnDelete window), the other one Set/Get/Del/Clear on any of three keys; same epilogue; same preemption bound and race detection",
+				"schedules":         "all interleavings at synchronisation points with at most 2 preemptions; happens-before race detection in every interleaving",
 			}
 		},
 		Outside: []string{"full linearizability of Get results (checked: a Get never returns another key's, a torn or a never-set value; Stats bounds in every snapshot; final Size/Count consistency)",
